@@ -12,8 +12,8 @@ func init() { register("C01", propC01) }
 
 func propC01() *Property {
 	return &Property{
-		ID:      "C01",
-		Decides: "R01.1 the stream framing reads the TCP connection only through io.ReadFull / io.ReadAtLeast (every chunking of the byte stream); R01.2 every read size derives from the authenticated metadata (shared with R04.2); R01.3 one writer at a time and nonce order equals byte order: every Encrypt on the send cipher and every write of the connection in StreamUnderlay.writeOneSegment happens with sendMutex held, and each written buffer was filled by the Encrypt calls of the same critical section; R01.4 sequence numbers are assigned and queued under oLock (shared with R13.5) and the stream output loop keeps oLock across dequeue-and-transmit, so segments leave in sequence order; R01.5 every splitting loop (Session.Write's 32 KiB chunks, writeChunk's fragments, the TCP fragmentation of a wire buffer) sends consecutive sub-slices whose concatenation is its input: the slice sent and the advance use the same length and the cursor starts at the input; R01.6 segments are dispatched by the session id of the authenticated metadata, and the stream receive queue is fed only from the per-session channel; a full receive queue delays delivery but never drops: the only way waitForRecvQueueSpace reports 'no space' is the session being closed; R01.7 Session.Read hands out bytes as a consume loop over (kept tail, next segment of the in-order queue) under rLock: the tail that did not fit is kept at the offset copied and is handed out before any newer segment; R01.8 fragment sizes keep the encoded payload length within the uint16 field for every transport/mode (R14.2); R01.9 both directions advance the implicit nonce by exactly one per AEAD operation (R09.5); R01.10 sequence numbers are assigned under oLock and queued payloads are private copies (R13.5, R13.6).; R01.11 handshake parsers read the proxy connection itself, never through a read-ahead wrapper that is then dropped",
+		ID:         "C01",
+		Decides:    "R01.1 the stream framing reads the TCP connection only through io.ReadFull / io.ReadAtLeast (every chunking of the byte stream); R01.2 every read size derives from the authenticated metadata (shared with R04.2); R01.3 one writer at a time and nonce order equals byte order: every Encrypt on the send cipher and every write of the connection in StreamUnderlay.writeOneSegment happens with sendMutex held, and each written buffer was filled by the Encrypt calls of the same critical section; R01.4 sequence numbers are assigned and queued under oLock (shared with R13.5) and the stream output loop keeps oLock across dequeue-and-transmit, so segments leave in sequence order; R01.5 every splitting loop (Session.Write's 32 KiB chunks, writeChunk's fragments, the TCP fragmentation of a wire buffer) sends consecutive sub-slices whose concatenation is its input: the slice sent and the advance use the same length and the cursor starts at the input; R01.6 segments are dispatched by the session id of the authenticated metadata, and the stream receive queue is fed only from the per-session channel; a full receive queue delays delivery but never drops: the only way waitForRecvQueueSpace reports 'no space' is the session being closed; R01.7 Session.Read hands out bytes as a consume loop over (kept tail, next segment of the in-order queue) under rLock: the tail that did not fit is kept at the offset copied and is handed out before any newer segment; R01.8 fragment sizes keep the encoded payload length within the uint16 field for every transport/mode (R14.2); R01.9 both directions advance the implicit nonce by exactly one per AEAD operation (R09.5); R01.10 sequence numbers are assigned under oLock and queued payloads are private copies (R13.5, R13.6).; R01.11 handshake parsers read the proxy connection itself, never through a read-ahead wrapper that is then dropped",
 		NotDecided: "that the bytes read equal the bytes written (needs execution); goroutine schedules beyond the lock discipline; bookkeeping of partially consumed payloads in unreadBuf (value-level).",
 		Rules: []Rule{
 			{ID: "R01.1", Floor: 6, Text: "reads of StreamUnderlay.conn only via io.ReadFull/io.ReadAtLeast", Run: r01_1},
@@ -754,7 +754,6 @@ func isLenOf(v ssa.Value, f *types.Var) bool {
 	g, _ := fieldOfAddr(u.X)
 	return sameField(g, f)
 }
-
 
 // r01_11: the SOCKS5 messages exchanged over a proxy connection before it is
 // handed to the application are parsed from the connection itself. A
